@@ -751,7 +751,7 @@ def check_C12(tier, seed):
         src = {}
         rc, out, st = lib.run_tlc("MC_Mod", "", names=False)
         for mj in lib.tlc_payload(out, "MOD"):
-            if mj["name"] in ("VE", "VA", "VI", "VC"):
+            if mj["name"] in ("VE", "VA", "VI", "VC", "VX1", "VX2", "VX3"):
                 src[mj["name"]] = Module(mj).text()
         corpus = sorted(glob.glob(os.path.join(lib.REPO, "tests", "tests-asn1c-compiler", "*-OK.asn1"))) + \
             sorted(glob.glob(os.path.join(lib.REPO, "examples", "*.asn1")))
@@ -764,9 +764,9 @@ def check_C12(tier, seed):
             except OSError:
                 pass
         # the same-code clause is claimed over generated, non-parameterized modules only
-        plain = [k for k in ("VE", "VA", "VI", "VC") if k in src]
+        plain = [k for k in ("VE", "VA", "VI", "VC", "VX1", "VX2", "VX3") if k in src]
         singles = sorted(src)
-        groups = [["VA", "VI"], ["VA", "VI", "VC"], ["VE", "VC", "VA"]]
+        groups = [["VX1", "VX2"], ["VX1", "VX2", "VX3"], ["VE", "VC"], ["VA", "VC", "VX3"]]
         q = lambda xs: "{%s}" % ", ".join('"%s"' % x for x in xs)
         consts = ["Singles = " + q(singles), "Groups = {%s}" % ", ".join(q(g) for g in groups), "Plain = " + q(plain)]
         _, scns, st = lib.generate("MC_Runs", consts, ["Export"], workers=2)
@@ -874,7 +874,7 @@ def check_C12(tier, seed):
             res.known[f["id"]] = res.known.get(f["id"], 0) + 1
         else:
             res.violations.append((sig, {"property": "C12", "signature": sig, "schedule": s["plan"], "events": [e for e in evs if e["id"] == s["id"]]}))
-    res.notes["files"] = {"generated": 4, "corpus": len(src) - 4, "non_parameterized": len(plain)}
+    res.notes["files"] = {"generated": 7, "corpus": len(src) - 4, "non_parameterized": len(plain)}
     return finish(res, tier, seed, "model_checking", t0,
                   "schedules enumerated by TLC: per file (universe modules VE VA VI VC and the shipped corpus tests/tests-asn1c-compiler/*-OK.asn1 + examples/*.asn1; quick: every 4th corpus file): compile twice, print, print the printed text, compile the printed text (non-parameterized files); per group of 2-3 files: every permutation of the command line; every run is a separate process under ASLR; outputs are digested per key (header lines naming the source file / command line removed)",
                   ["MC_Runs.tla: the compiler is a function of (file order) resp. (file set) resp. (file)", "TLC, Json module, python glue (digests)",
